@@ -176,3 +176,20 @@ theorem ofDigits_append (b : Nat) (hi lo : List Nat) :
 
 
 end ElaVerif.Digits
+
+namespace ElaVerif.Digits
+
+theorem digits_length_le (b : Nat) (hb : 2 ≤ b) (n k : Nat) (h : n < b ^ k) : (digits b n).length ≤ k := by
+  by_cases hn : n = 0
+  · subst hn; simp [digits, digitsLE]
+  · have hv := ofDigitsLE_digitsLE b hb (n + 1) n (by omega)
+    have hlast := digitsLE_last b hb (n + 1) n (by omega)
+    have hne : digitsLE b (n + 1) n ≠ [] := by unfold digitsLE; rw [if_neg hn]; simp
+    have hlow := ofDigitsLE_lower b _ hne hlast
+    rw [hv] at hlow
+    simp only [digits, List.length_reverse]
+    generalize (digitsLE b (n + 1) n).length = L at *
+    have : L - 1 < k := (Nat.pow_lt_pow_iff_right (by omega)).mp (Nat.lt_of_le_of_lt hlow h)
+    omega
+
+end ElaVerif.Digits
